@@ -1050,12 +1050,35 @@ def mon_connection_loss(tr, pid='C11', affected=('c', 's'), settled_mark='settle
                 if kind == 'manual':
                     if any(e['ev'] == 'pub_subscribed' and e['seq'] < fseq for e in pe) and \
                             not any(e['ev'] == 'pub_cancel' and e['seq'] > fseq for e in pe) and \
-                            not any(e['ev'] in ('hand_end',) and e['seq'] > fseq for e in pe):
+                            not any((e['ev'] in ('hand_end', 'hand_fail') or (e['ev'] == 'hand' and e.get('complete')))
+                                    and e['seq'] > fseq for e in pe):
                         out.append(viol('publisher_not_cancelled', '%s:not_cancelled:manual' % pid, **facts))
                 elif kind in ('gen', 'agen'):
                     if not any(e['ev'] == 'src_on_cancel' and e['seq'] > fseq for e in pe) and \
                             not any(e['ev'] in ('src_on_complete',) and e['seq'] > fseq for e in pe):
                         out.append(viol('publisher_not_cancelled', '%s:not_cancelled:%s' % (pid, kind), **facts))
+    # requests issued after the loss (for example a retry from inside on_error) and before a later explicit close() of
+    # that endpoint are pending at that close: it must fail them too
+    for uid in scn.started:
+        st = scn.st[uid]
+        spec = st['spec']
+        issue = next((e for e in log if e['ev'] == 'issue' and e.get('uid') == uid), None)
+        if issue is None or issue['seq'] <= fseq or st.get('issue_raised') or spec['side'] not in real:
+            continue
+        # only requests issued before the close() call began: one issued from a callback while close() is sweeping is
+        # not "pending at that moment" (and failing those too would turn a retrying application into an endless loop)
+        later_close = next((e for e in log if e['ev'] == 'close_call' and e['side'] == spec['side'] and e['seq'] > issue['seq']), None)
+        if later_close is None or not any(e['ev'] == 'close_returned' and e['side'] == spec['side'] for e in log):
+            continue
+        evs = [e for e in log if e.get('uid') == uid]
+        if any(e['ev'] in ('sub_cancel', 'rr_cancel_call') and e['side'] == spec['side'] for e in evs):
+            continue  # the application cancelled it itself: no terminal signal is owed
+        if spec['k'] == 'rr' and not any(e['ev'] in ('rr_result', 'rr_error', 'rr_cancelled') for e in evs):
+            out.append(viol('request_left_hanging', '%s:hanging_after_close:rr' % pid, uid=uid, k='rr', fault=fkind,
+                            issued='after the loss, before close()'))
+        if spec['k'] in ('st', 'ch') and not any(e['ev'] in ('on_error', 'on_complete') and e['side'] == spec['side'] for e in evs):
+            out.append(viol('subscriber_left_hanging', '%s:hanging_after_close:%s' % (pid, spec['k']), uid=uid, k=spec['k'],
+                            fault=fkind, issued='after the loss, before close()'))
     for side in affected:
         closes = [e for e in log if e['ev'] == 'on_close' and e['side'] == side]
         if len(closes) != 1:
